@@ -724,6 +724,8 @@ def run(ctx):
     # mask, and export removes output channels
     before = len(ctx.obligations)
     c09.r09e(ctx)
+    from . import c08
+    c08.r08f(ctx)       # output-tied widths are frozen, on graph worlds
     for o in ctx.obligations[before:]:
         o.rule = 'R01k'
     ctx.assume('torch semantics: boolean-mask indexing on one axis keeps the other axes; '
